@@ -138,6 +138,13 @@ def build(ctx, prop_files, variants=("plain",), need_model=True):
             # the library does not even compile: nothing can be checked
             print(out[-4000:])
             raise SystemExit("build of /repo failed (gen_constants): cannot check")
+        # T1b: the Gallina models of the pure integer cores (ring buffer, signal-definition normalisation, on-disk size, tmap search,
+        # omit register, seek step) are regenerated from the current C source; their equivalence with the hand models is re-proved by make
+        rc2, out2 = sh([sys.executable, os.path.join(VERIF, "tools", "c2gallina.py")], timeout=600)
+        if rc2 != 0:
+            ctx.proof_build_ok = False
+            ctx.tie_broken = True
+            ctx.proof_build_log += "\nTIE T1b BROKEN: tools/c2gallina.py could not translate the current source (exit %d):\n%s" % (rc2, out2[-2500:])
         if not os.path.exists(os.path.join(COQ, "Makefile.coq")) or \
                 os.path.getmtime(os.path.join(COQ, "Makefile.coq")) < os.path.getmtime(os.path.join(COQ, "_CoqProject")):
             sh("coq_makefile -f _CoqProject -o Makefile.coq", cwd=COQ)
@@ -189,6 +196,8 @@ def collect_obligations(ctx, vfile):
     blocks = re.split(r"(?m)^(?=Closed under the global context|Axioms:)", out)
     blocks = [b for b in blocks if b.startswith("Closed under") or b.startswith("Axioms:")]
     for i, n in enumerate(names):
+        if vfile == "Properties_gen.v" and not n.startswith(ctx.prop + "_"):
+            continue      # the file holds the generated-model theorems of several properties; each check lists its own
         ax = None
         if i < len(blocks):
             b = blocks[i]
